@@ -10,7 +10,7 @@ BATCH = 1
 TECHNIQUE = ("exhaustive evaluation over a finite parameter grid x every degree of the support up to a bound, "
              "against independently evaluated closed forms (no state space to explore: bounded exhaustive input "
              "enumeration only)")
-RULE = ("grid: a in {0.1,0.5,1,2}, mean in {0.5,1,2.5,7,30,120}, alpha in {2,2.5,3,4}, kappa in {0.05,1,5,25}; every k of the "
+RULE = ("grid: a in {0.1,0.5,1,2}, mean in {0.5,1,2.5,7,30,120,720,800}, alpha in {2,2.5,3,4}, kappa in {0.05,1,5,25}; every k of the "
         "support up to 200 (quick) / 400 (thorough); values compared with closed forms evaluated independently (exact "
         "factorials, zeta / polylog by direct summation with Euler-Maclaurin tail) within the documented truncation "
         "tolerance; partial sums + analytic tail compared with 1; non-trivial = one (distribution, parameters, k)")
@@ -43,7 +43,7 @@ def polylog(s, z, N=200000):
 def instances(tier, seed):
     for a in (0.1, 0.5, 1, 2):
         yield {"dist": "exponential", "params": [a]}
-    for m in (0.5, 1, 2.5, 7, 30, 120):
+    for m in (0.5, 1, 2.5, 7, 30, 120, 720, 800):
         yield {"dist": "poisson", "params": [m]}
     for al in (2, 2.5, 3, 4):
         yield {"dist": "power_law", "params": [al]}
@@ -68,8 +68,11 @@ def run_instance(inst, tier):
     elif d == "poisson":
         m = ps[0]
         k0, rel = 0, 1e-12
-        exact = lambda k: float(Fraction(m).limit_denominator(10 ** 6) ** k / math.factorial(k)) * math.exp(-m)
-        tail = lambda K: sum(exact(k) for k in range(K + 1, K + 200))
+        exact = lambda k: math.exp(-m + k * math.log(m) - math.lgamma(k + 1)) if m > 200 else \
+            float(Fraction(m).limit_denominator(10 ** 6) ** k / math.factorial(k)) * math.exp(-m)
+        if m > 200:
+            rel = 1e-9   # reference itself evaluated in log space
+        tail = lambda K: sum(exact(k) for k in range(K + 1, K + 200)) if m <= 200 else None
     elif d == "power_law":
         al = ps[0]
         C = zeta(al)
@@ -91,8 +94,13 @@ def run_instance(inst, tier):
         rel = 2 * dropped / C + 1e-9
         k0, exact = 1, (lambda k: k ** -al * math.exp(-k / ka) / C)
         tail = lambda K_: (C - sum(k ** -al * z ** k for k in range(1, K_ + 1))) / C
+    ks = list(range(k0, kmax + 1))
+    big = d == "poisson" and ps[0] > 200
+    if big:
+        mm = int(ps[0])
+        ks = list(range(0, 40)) + list(range(mm - 100, mm + 101))
     total = 0.0
-    for k in range(k0, kmax + 1):
+    for k in ks:
         res.executions += 1
         res.states += 1
         res.transitions += 1
@@ -102,13 +110,15 @@ def run_instance(inst, tier):
             res.violation(f"C19:{d}:raises", f"{d}{tuple(ps)}({k}) raised {e!r}", inst, k=k)
             return res
         w = exact(k)
-        if v < 0 or abs(v - w) > rel * w + 1e-300:
+        if v < 0 or not abs(v - w) <= rel * w + 1e-200:   # absolute floor: values in the underflow range are not compared relatively
             res.violation(f"C19:{d}:value", f"{d}{tuple(ps)}({k}) = {v!r}, the named pmf gives {w!r} "
                           f"(allowed relative error {rel:.3g})", inst, k=k)
             return res
         total += v
         res.nontrivial.add((d, tuple(ps), k))
     t = tail(kmax)
+    if big:
+        t = 1 - total   # only a window around the mean was evaluated; the normalisation sum is not checked here
     if abs(total + t - 1) > rel + 1e-9:
         res.violation(f"C19:{d}:normalisation", f"{d}{tuple(ps)}: sum over k<={kmax} = {total}, analytic tail {t}, "
                       f"together {total + t} != 1 (tolerance {rel:.3g})", inst)
